@@ -237,6 +237,10 @@ structure Check where
   pendingOk : List Nat := []
   /-- packets the servers wrote that the checker has not delivered yet: (connection, packet), in the order written -/
   queue : List (Nat × Packet) := []
+  /-- calls whose `begin` has been processed -/
+  begun : List Nat := []
+  /-- the events after the current one (the checker looks ahead for queries that a server reads late) -/
+  rest : List Event := []
   err : Option String
 
 def Check.fail (ck : Check) (msg : String) : Check := if ck.err.isSome then ck else { ck with err := some msg }
@@ -275,6 +279,36 @@ def sendableConn (nConn : Nat) (s : State) : Option Nat :=
   | some c => some c
   | none => (List.range nConn).find? ok
 
+def deliverNow (idOf : Nat → Id) (nConn : Nat) (ck : Check) (c : Nat) (p : Packet) : Check :=
+  if !(ck.st.conn c).reader then ck   -- written into a connection nobody reads any more: lost
+  else
+    let ck := applyAct idOf nConn ck (.deliver c p) s!"deliver {c}"
+    if (ck.st.conn c).pending.isSome then applyAct idOf nConn ck (.chanSend c) s!"chanSend {c}" else ck
+
+/-- deliver the queued packets of connection c in order: all of them, or up to and including the first answer
+carrying `upto` -/
+def flushQueue (idOf : Nat → Id) (nConn : Nat) (ck : Check) (c : Nat) (upto : Option Id) : Check :=
+  let r := ck.queue.foldl (fun (acc : Check × List (Nat × Packet) × Bool) cp =>
+    let (ck, keep, done) := acc
+    if done ∨ cp.1 ≠ c then (ck, keep ++ [cp], done) else
+    let ck := deliverNow idOf nConn ck c cp.2
+    let hit := match cp.2, upto with
+      | .answer id _, some u => id == u
+      | _, _ => false
+    (ck, keep, hit)) (ck, [], false)
+  { r.1 with queue := r.2.1 }
+
+/-- begun calls whose query a server will still read on connection c before that connection is accepted again: a
+server may read (and log) a query long after the client wrote it, so their sends must be placed before anything that
+makes the connection refuse sends -/
+def futureQueries (rest : List Event) (c : Nat) : List Nat :=
+  let upto := rest.takeWhile fun e => match e with | .accepted c' => c' != c | _ => true
+  upto.filterMap fun e => match e with | .query k c' => if c' = c then some k else none | _ => none
+
+def presend (idOf : Nat → Id) (nConn : Nat) (ck : Check) (c : Nat) : Check :=
+  (futureQueries ck.rest c).foldl (fun ck k =>
+    if ck.begun.contains k ∧ !ck.sent.contains k then advanceToSend idOf nConn ck k c else ck) ck
+
 /-- try to place the send of one begun call; `none` = not possible in the current state -/
 def placeOne (idOf : Nat → Id) (nConn : Nat) (ck : Check) (k : Nat) : Want → Option Check
   | .lost =>
@@ -289,6 +323,9 @@ def placeOne (idOf : Nat → Id) (nConn : Nat) (ck : Check) (k : Nat) : Want →
       let ck := { ck with st := { ck.st with nextConn := c % nConn } }
       let ck := applyAct idOf nConn ck (.pickConn k) s!"pickConn {k}"
       let cn := ck.st.conn c
+      -- the connection is about to refuse sends: queries that a server still reads from it were written before
+      -- ... and what the servers wrote on it so far was read before
+      let ck := if cn.status = .connected ∧ cn.sockOk then flushQueue idOf nConn (presend idOf nConn ck c) c none else ck
       let ck :=
         if cn.status = .connected ∧ cn.sockOk ∧ !cn.reader then
           -- the socket of a connection the peer closed dies at a moment the environment chooses
@@ -316,12 +353,6 @@ def retryTodo (idOf : Nat → Id) (nConn : Nat) (errToo : Nat → Bool) (ck : Ch
     | some ck' => { ck' with todo := ck'.todo.filter (fun x => x.1 != kw.1) }
     | none => ck) ck
 
-def deliverNow (idOf : Nat → Id) (nConn : Nat) (ck : Check) (c : Nat) (p : Packet) : Check :=
-  if !(ck.st.conn c).reader then ck   -- written into a connection nobody reads any more: lost
-  else
-    let ck := applyAct idOf nConn ck (.deliver c p) s!"deliver {c}"
-    if (ck.st.conn c).pending.isSome then applyAct idOf nConn ck (.chanSend c) s!"chanSend {c}" else ck
-
 /-- the client side of a completed handshake (`reconnectOk`), preceded by the failing sends still to be placed -/
 def becomeConnected (idOf : Nat → Id) (nConn : Nat) (ck : Check) (c : Nat) : Check :=
   if ck.pendingOk.contains c then
@@ -330,19 +361,10 @@ def becomeConnected (idOf : Nat → Id) (nConn : Nat) (ck : Check) (c : Nat) : C
     { ck with pendingOk := ck.pendingOk.filter (· != c) }
   else ck
 
-/-- deliver the queued packets of connection c in order — all of them, or up to and including the first answer
-carrying `upto` — after the client side of a pending handshake -/
+/-- deliver the queued packets of connection c — all of them, or up to and including the first answer carrying
+`upto` — after the client side of a pending handshake -/
 def flushConn (idOf : Nat → Id) (nConn : Nat) (ck : Check) (c : Nat) (upto : Option Id) : Check :=
-  let ck := becomeConnected idOf nConn ck c
-  let r := ck.queue.foldl (fun (acc : Check × List (Nat × Packet) × Bool) cp =>
-    let (ck, keep, done) := acc
-    if done ∨ cp.1 ≠ c then (ck, keep ++ [cp], done) else
-    let ck := deliverNow idOf nConn ck c cp.2
-    let hit := match cp.2, upto with
-      | .answer id _, some u => id == u
-      | _, _ => false
-    (ck, keep, hit)) (ck, [], false)
-  { r.1 with queue := r.2.1 }
+  flushQueue idOf nConn (becomeConnected idOf nConn ck c) c upto
 
 /-- what the rest of the history says about call k: the connection its query is seen on, and its result -/
 def lookQuery (evs : List Event) (k : Nat) : Option Nat :=
@@ -355,6 +377,7 @@ def checkEvent (idOf : Nat → Id) (nConn : Nat) (freshId : Id) (all : List Even
   let ck := retryTodo idOf nConn (fun _ => false) ck0
   match ev with
   | .begin k =>
+    let ck := { ck with begun := k :: ck.begun }
     match lookQuery all k, lookRet all k with
     | some _, _ => ck                       -- placed when the query is seen
     | none, some .sendErr => { ck with todo := ck.todo ++ [(k, .sendErr)] }
@@ -380,6 +403,7 @@ def checkEvent (idOf : Nat → Id) (nConn : Nat) (freshId : Id) (all : List Even
     -- a new handshake means a reconnect loop ran: if the model has none yet, a failed ping send started it
     let cn := ck.st.conn c
     let ck := if cn.loops > 0 then ck else
+      let ck := if cn.status = .connected ∧ cn.sockOk then flushQueue idOf nConn (presend idOf nConn ck c) c none else ck
       let ck := if cn.sockOk then applyAct idOf nConn ck (.sockDead c) s!"sockDead {c}" else ck
       let ck := if (ck.st.conn c).spawned > 0 then ck else applyAct idOf nConn ck (.pingFail c) s!"pingFail {c}"
       applyAct idOf nConn ck (.reconnectStart c) s!"reconnectStart {c}"
@@ -417,8 +441,12 @@ def checkEvent (idOf : Nat → Id) (nConn : Nat) (freshId : Id) (all : List Even
       applyAct idOf nConn ck (.unregister k) s!"unregister {k}"
 
 /-- `none` = the history is a trace of the system; `some why` otherwise -/
+def checkAll (idOf : Nat → Id) (nConn : Nat) (freshId : Id) (all : List Event) : Check → List Event → Check
+  | ck, [] => ck
+  | ck, e :: rest => checkAll idOf nConn freshId all (checkEvent idOf nConn freshId all { ck with rest := rest } e) rest
+
 def checkHistory (idOf : Nat → Id) (nConn : Nat) (freshId : Id) (evs : List Event) : Option String :=
-  let ck := evs.foldl (checkEvent idOf nConn freshId evs) { st := init, sent := [], todo := [], err := none }
+  let ck := checkAll idOf nConn freshId evs { st := init, sent := [], todo := [], err := none } evs
   if ck.st.readerBlocked then some "a reader blocked on a full channel" else ck.err
 
 end Tongo.ClientSM
